@@ -336,6 +336,10 @@ func runConcDet(r *Run) {
 	overlaps := 0
 	stuck := false
 	oldGC := debug.SetGCPercent(-1)
+	// no collection while a run is in flight (pool contents stay a function of the run), except under memory
+	// pressure: every chunk owns a 10 MiB buffer, a few hundred of them must not exhaust the address-space limit
+	oldLimit := debug.SetMemoryLimit(3 << 30)
+	defer debug.SetMemoryLimit(oldLimit)
 	runtime.GC()
 	runtime.GC()
 	oldProcs := runtime.GOMAXPROCS(1)
